@@ -11,6 +11,7 @@ import sys
 import warnings
 
 import numpy as np
+import pandas as pd
 
 import fsic
 from fsic.exceptions import InitialisationError, NonConvergenceError, SolutionError
@@ -83,6 +84,19 @@ def seqf(x, n):
     return [x[str(i)] for i in range(1, n + 1)] if x else []
 
 
+def make_span(kind, L, other=False):
+    n = L + 1 if other else L
+    if kind == 'list':
+        return [f'p{i}' for i in range(n)]
+    if kind == 'nparray':
+        return np.arange(100, 100 + n)
+    if kind == 'pdindex':
+        return pd.Index([f'q{i}' for i in range(n)])
+    if kind == 'pdperiod':
+        return pd.period_range(start='2000', periods=n, freq='Y')
+    return range(100, 100 + n)
+
+
 def build(rec, variant):
     cfg = rec['cfg']
     n, L, scale = cfg['n'], cfg['L'], variant['scale']
@@ -95,7 +109,7 @@ def build(rec, variant):
     subs = {}
     src = tpos + cfg['offset']
     for i in range(1, n + 1):
-        span = range(100, 100 + L) if ok[i - 1] else range(100, 101 + L)
+        span = make_span(variant.get('span', 'range'), L, other=not ok[i - 1])
         m = sub_class(lags[i - 1], leads[i - 1])(span)
         m.__dict__['_Y'][:] = [30.0 + 7 * i + p for p in range(len(span))]
         m.__dict__['_Z'][:] = [3.5 * i + p for p in range(len(span))]
@@ -132,6 +146,8 @@ def run_one(rec, variant):
         constructed = True
     except InitialisationError:
         constructed = False
+    except Exception as e:  # anything else at construction is not what the property allows
+        return [f'construct:{type(e).__name__}'], {'res': f'construct:{type(e).__name__}', 'span': variant.get('span', 'range'), 'msg': str(e)[:120]}
     exp_kind = fin['res']['kind']
     if not constructed:
         obs['res'] = 'InitialisationError'
@@ -241,6 +257,8 @@ def key_of(rec, variant, diffs, obs):
     if any(s == UNKNOWN for s in cfg['sel']):
         feats.append('unknown-id')
     d = '+'.join(sorted(set(x.split(':')[0] for x in diffs)))
+    if d.startswith('construct'):
+        return f"linker construction over {variant.get('span', 'range')} spans raised {obs['res'].split(':')[1]} spec={fin['res']['kind']}"
     return f"linker[{variant['entry']} scale={variant['scale']}] {d} spec={fin['res']['kind']}/{fin['lst']} code={obs.get('res')}/{obs.get('lst')} {' '.join(feats)}".strip()
 
 
